@@ -46,7 +46,14 @@ async function build (tier) {
   const leaves = r.histories.map((hist) => ({ key: hist.join(' '), hist }))
   // repeated single calls (same call 25x in one process)
   for (const a of alpha) { leaves.push({ key: 'repeat ' + a, hist: Array(25).fill(a) }); r.stats.states++; r.stats.transitions++ }
-  return { leaves, stats: r.stats, bound: { history_length_h: h, alphabet_size: alpha.length, repeats: 25 }, alphabets: { calls: alpha } }
+  // the JavaScript wrappers (main.js) keep module-level state too: histories over {CacheRewriter, NonCacheRewriter}
+  // instances through the real main.js, the native answers coming from the service
+  const jsAlpha = []
+  for (const cls of ['Rewriter#1', 'Rewriter#2', 'NonCacheRewriter#1']) for (const inp of ['mod', 'notmod', 'syntax', 'chained', 'long']) jsAlpha.push(cls + ':' + inp)
+  const rj = histories(jsAlpha, tier === 'thorough' ? 4 : 3)
+  for (const hist of rj.histories) leaves.push({ fam: 'js', key: 'js ' + hist.join(' '), hist })
+  for (const k of Object.keys(rj.stats)) r.stats[k] = (r.stats[k] || 0) + rj.stats[k]
+  return { leaves, stats: r.stats, bound: { history_length_h: h, alphabet_size: alpha.length, repeats: 25, js_alphabet_size: jsAlpha.length }, alphabets: { calls: alpha, js_calls: jsAlpha } }
 }
 
 function reqOf (sym) {
@@ -80,7 +87,45 @@ async function reference (sym) {
   return refs.get(sym)
 }
 
-async function check (leaf) {
+function requests (leaf) {
+  if (leaf.fam !== 'js') return []
+  return Array.from(new Set(leaf.hist.map((s) => s.split(':')[1]))).map((inp) => ({ id: inp, config: BASE, file: INPUTS[inp].file, code: INPUTS[inp].code }))
+}
+
+let bridge = null
+async function checkJs (leaf, resps) {
+  const res = { nontrivial: true, outcome: 'js', violations: [], evaluations: leaf.hist.length, distinctKey: leaf.key }
+  if (!bridge) bridge = require('../lib/bridge')
+  const main = bridge.loadMain()
+  const byInp = {}
+  for (const r of resps) { byInp[r.id] = r; bridge.provide(BASE, INPUTS[r.id].code, INPUTS[r.id].file, r) }
+  const instances = {}
+  leaf.hist.forEach((sym, i) => {
+    const [who, inp] = sym.split(':')
+    const cls = who.split('#')[0]
+    if (!instances[who]) instances[who] = new main[cls](BASE)
+    const native = byInp[inp]
+    let out = null; let threw = null
+    try { out = instances[who].rewrite(INPUTS[inp].code, INPUTS[inp].file) } catch (e) { threw = e }
+    const where = `call ${i} (${sym}) of history [${leaf.key}]`
+    if (native.status !== 'ok') {
+      if (!threw) res.violations.push({ rule: 'js-history-dependent-result', sig: inp + ':no-throw', detail: `${where}: the native call fails (${native.status}) but the wrapper returned a result` })
+      else if (String(threw.message) !== String(native.error)) res.violations.push({ rule: 'js-history-dependent-result', sig: inp + ':error-text', detail: `${where}: error text differs from the native one` })
+      return
+    }
+    if (threw) { res.violations.push({ rule: 'js-history-dependent-result', sig: inp + ':threw', detail: `${where}: wrapper threw ${String(threw.message).slice(0, 100)}` }); return }
+    const expectContent = native.metrics && native.metrics.status === 'notmodified' ? INPUTS[inp].code : native.content
+    if (out.content !== expectContent) res.violations.push({ rule: 'js-history-dependent-result', sig: inp + ':content', detail: `${where}: content differs from what a single fresh call gives (length ${String(out.content).length} vs ${expectContent.length})` })
+    if (JSON.stringify(out.metrics) !== JSON.stringify({ status: native.metrics.status, instrumentedPropagation: native.metrics.instrumentedPropagation, file: native.metrics.file, propagationDebug: native.metrics.propagationDebug || undefined })) res.violations.push({ rule: 'js-history-dependent-result', sig: inp + ':metrics', detail: `${where}: metrics ${JSON.stringify(out.metrics)} vs native ${JSON.stringify(native.metrics)}` })
+    if (JSON.stringify(out.literalsResult) !== JSON.stringify(native.literalsResult || undefined)) res.violations.push({ rule: 'js-history-dependent-result', sig: inp + ':literals', detail: `${where}: literalsResult differs` })
+  })
+  if (res.violations.length) res.outcome = 'violation'
+  res.sample = { js_history: leaf.hist }
+  return res
+}
+
+async function check (leaf, preResps) {
+  if (leaf.fam === 'js') return checkJs(leaf, preResps)
   const res = { nontrivial: true, outcome: 'ok', violations: [], evaluations: leaf.hist.length }
   const resps = await runOnce(leaf.hist.map(reqOf))
   const prefixes = {}
@@ -115,6 +160,7 @@ async function check (leaf) {
 module.exports = {
   id: 'C16',
   build,
+  requests,
   check,
   inflight: 4,
   rule: 'leaf = history (sequence of (rewriter instance, input) calls, length <= h, plus each call repeated 25x); each history runs in its own fresh process; non-trivial = every history (each compares >= 1 call with an independent fresh-process reference); distinct by the sequence',
